@@ -13,6 +13,7 @@
 #include <libgen.h>
 #include <langinfo.h>
 #include <csignal>
+#include <sys/stat.h>
 
 static void mt(const char* what) {
   fail("C17", std::string("non-reentrant-libc:") + what, std::string("library code called ") + what + "(), which keeps process-wide state inside libc: two threads working on private items share it");
@@ -51,4 +52,16 @@ size_t __sim_trap_mbstowcs(wchar_t* d, const char* s, size_t n) { mt("mbstowcs")
 int __sim_trap_mblen(const char* s, size_t n) { mt("mblen"); return mblen(s, n); }
 int __sim_trap_mbtowc(wchar_t* d, const char* s, size_t n) { mt("mbtowc"); return mbtowc(d, s, n); }
 int __sim_trap_wctomb(char* s, wchar_t w) { mt("wctomb"); return wctomb(s, w); }
+// process-wide state kept by the kernel on the process's behalf: a library that saves, changes and restores it around its own work
+// races with every other thread doing the same (and with the application's own settings)
+typedef void (*sim_sighandler_t)(int);
+sim_sighandler_t __sim_trap_signal(int sig, sim_sighandler_t h) { mt("signal"); return signal(sig, h); }
+int __sim_trap_sigaction(int sig, const struct sigaction* a, struct sigaction* o) { if (a != nullptr) mt("sigaction"); return sigaction(sig, a, o); }
+int __sim_trap_sigprocmask(int how, const sigset_t* s, sigset_t* o) { if (s != nullptr) mt("sigprocmask"); return sigprocmask(how, s, o); }
+mode_t __sim_trap_umask(mode_t m) { mt("umask"); return umask(m); }
+int __sim_trap_chdir(const char* p) { mt("chdir"); return chdir(p); }
+void __sim_trap_tzset(void) { mt("tzset"); tzset(); }
+void __sim_trap_srand48(long v) { mt("srand48"); srand48(v); }
+unsigned __sim_trap_alarm(unsigned s) { mt("alarm"); return alarm(s); }
+int __sim_trap_atexit(void (*f)(void)) { mt("atexit"); return atexit(f); }
 }
